@@ -765,7 +765,7 @@ func withNewHelpers(f *ssa.Function) []*ssa.Function {
 }
 
 func eachCallWithNewHelpers(f *ssa.Function, fn func(call ssa.CallInstruction)) {
-	for _, g := range withNewHelpers(f) {
+	for _, g := range withHelpersAndLiterals(f) {
 		eachCall(g, fn)
 	}
 }
